@@ -760,6 +760,83 @@ def gen_occ(repo):
     emit("Occ", "C03,C04", text, [(rel, s.raw)], s.snippets)
 
 
+# ------------------------------------------------------------------------------------------ C03: SA-IS integer widths
+
+def _width_threshold(s, what, op, expr, line):
+    """largest count for which `count <op> <expr>` holds (`<=` or `<`; `<expr>` = `[std::]uN::MAX as usize` or a literal)"""
+    e = " ".join(expr.split())
+    m = re.fullmatch(r"(?:std\s*::\s*)?u(8|16|32|64)\s*::\s*MAX\s+as\s+usize", e)
+    if m:
+        v = 2 ** int(m.group(1)) - 1
+    else:
+        v = parse_int(e)
+        if v is None or v < 0:
+            fail("%s:%d: %s: the bound `%s` is neither `uN::MAX as usize` nor an integer literal" % (s.rel, line, what, e[:60]))
+    if op == "<":
+        if v == 0:
+            fail("%s:%d: %s: `< 0` selects nothing" % (s.rel, line, what))
+        v -= 1
+    return v
+
+
+def gen_saiswidth(repo):
+    """the two width dispatches of SA-IS: `suffix_array` chooses the integer type of the transformed text from
+    `alphabet.len() + sentinel_count`, `calc_lms_pos` the type of the reduced text from `lms_substring_count`; every value
+    stored is `cast(v).unwrap()`.  Extracted: per arm (largest count selecting it, bits of the type), and the type of the
+    final `else`/`_` arm.  Theorems: `RbV/Lemmas/SaisWidth.lean`, restated in `RbV/Thm/C03.lean`."""
+    rel = "src/data_structures/suffix_array.rs"
+    s = Src(repo, rel)
+    body, line = s.fn_body(r"pub\s+fn\s+suffix_array\s*\(\s*text\s*:\s*&\s*\[\s*u8\s*\]\s*\)\s*->\s*RawSuffixArray\s*\{", "suffix_array")
+    m = s.unique_in(body, line, r"\bmatch\s+alphabet\s*\.\s*len\s*\(\s*\)\s*\+\s*sentinel_count\s*\{", "transform dispatch",
+                    "`match alphabet.len() + sentinel_count {`")
+    arms_t = []
+    for a in re.finditer(r"\b(\w+)\s+if\s+(\w+)\s*(<=|<)\s*([^=>]+?)\s*=>\s*\{?\s*sais\s*\.\s*construct\s*\(\s*&\s*transform_text\s*::\s*<\s*u(8|16|32|64)\s*>",
+                         body[m.end():]):
+        if a.group(1) != a.group(2):
+            fail("%s: suffix_array: guard `%s if %s …` does not test the matched value" % (rel, a.group(1), a.group(2)))
+        arms_t.append((_width_threshold(s, "suffix_array", a.group(3), a.group(4), line), int(a.group(5))))
+    e = re.findall(r"\b_\s*=>\s*\{?\s*sais\s*\.\s*construct\s*\(\s*&\s*transform_text\s*::\s*<\s*u(8|16|32|64)\s*>", body[m.end():])
+    if len(e) != 1 or not arms_t:
+        fail("%s: suffix_array: the width dispatch (guarded arms + one `_` arm calling `sais.construct(&transform_text::<uN>(…))`) "
+             "was restructured" % rel)
+    if body[m.end():].count("transform_text") != len(arms_t) + 1:
+        fail("%s: suffix_array: %d calls of transform_text, %d recognised arms" % (rel, body[m.end():].count("transform_text"), len(arms_t) + 1))
+    else_t = int(e[0])
+    body2, line2 = s.fn_body(r"fn\s+calc_lms_pos\s*<[^{]*?>\s*\([^{]*?\)\s*\{", "calc_lms_pos")
+    arms_r = []
+    for a in re.finditer(r"\bif\s+lms_substring_count\s*(<=|<)\s*([^{]+?)\s*\{\s*self\s*\.\s*sort_lms_suffixes\s*::\s*<\s*T\s*,\s*u(8|16|32|64)\s*>",
+                         body2):
+        arms_r.append((_width_threshold(s, "calc_lms_pos", a.group(1), a.group(2), line2), int(a.group(3))))
+    e2 = re.findall(r"\belse\s*\{\s*self\s*\.\s*sort_lms_suffixes\s*::\s*<\s*T\s*,\s*u(8|16|32|64)\s*>", body2)
+    if len(e2) != 1 or not arms_r or body2.count("sort_lms_suffixes") != len(arms_r) + 1:
+        fail("%s: calc_lms_pos: the width dispatch (`if lms_substring_count <= … { self.sort_lms_suffixes::<T, uN>(…) } … else { … }`) "
+             "was restructured" % rel)
+    else_r = int(e2[0])
+    s.snippets["transform dispatch arms"] = repr(arms_t) + " else u%d" % else_t
+    s.snippets["reduced dispatch arms"] = repr(arms_r) + " else u%d" % else_r
+    for what, arms in (("suffix_array", arms_t), ("calc_lms_pos", arms_r)):
+        for thr, bits in arms:
+            if thr >= 2 ** bits:
+                note("%s: %s: counts up to %d select u%d, whose maximum is %d: `width_arms_fit` will fail"
+                     % (rel, what, thr, bits, 2 ** bits - 1))
+    fmt = lambda arms: "[" + ", ".join("(%d, %d)" % a for a in arms) + "]"
+    text = (
+        "/-! GENERATED by tools/gen_tables.py (property C03) — do not edit.\n"
+        "Extracted from the source text of `" + rel + "` on every `./check C03`: the width dispatches of SA-IS.\n"
+        "Per guarded arm, in source order: (largest count that satisfies the guard, bits of the unsigned type the arm\n"
+        "instantiates); and the bits of the final arm.  Theorems: `RbV/Lemmas/SaisWidth.lean`, `RbV/Thm/C03.lean`\n"
+        "(`sais_width_arms_fit`, `sais_reduced_width_fits`, `sais_transform_width_fits`). -/\n"
+        "namespace RbV.Gen.SaisWidth\n\n"
+        "/-- `suffix_array`: `match alphabet.len() + sentinel_count { a if a <= … => …transform_text::<uN>… }` -/\n"
+        "def transformArms : List (Nat × Nat) := %s\n\n" % fmt(arms_t) +
+        "def transformElse : Nat := %d\n\n" % else_t +
+        "/-- `calc_lms_pos`: `if lms_substring_count <= … { self.sort_lms_suffixes::<T, uN>(…) } else if …` -/\n"
+        "def reducedArms : List (Nat × Nat) := %s\n\n" % fmt(arms_r) +
+        "def reducedElse : Nat := %d\n\n" % else_r +
+        "end RbV.Gen.SaisWidth\n")
+    emit("SaisWidth", "C03", text, [(rel, s.raw)], s.snippets)
+
+
 # ------------------------------------------------------------------------------------------ translated function bodies
 
 def gen_src(unit_name):
@@ -832,6 +909,12 @@ EXTRACTORS = {
     "C08": [GEN_SRC["SrcKmpLps"], GEN_SRC["SrcShiftAndMasks"], GEN_SRC["SrcHorspoolNew"]],
     "C18": [GEN_SRC["SrcFenwick"], GEN_SRC["SrcBitEnc"]],
 }
+
+
+# additive registrations (kept outside the dict literal so that concurrent edits merge)
+EXTRACTORS["C03"] = EXTRACTORS["C03"] + [gen_saiswidth]
+THEOREMS["SaisWidth"] = ["RbV.Thm.C03.sais_width_arms_fit", "RbV.Thm.C03.sais_reduced_width_fits",
+                         "RbV.Thm.C03.sais_transform_width_fits"]
 
 
 def main():
